@@ -200,8 +200,8 @@ def run(tier):
     check.cov["matrix_B_files"] = len(behs)
     check.cov["sites"] = sorted(SITES)
     # matrix C (specials): special names at class / type / const sites
-    behs = behaviours(check, ["new", "param_type", "return_type", "prop_type", "constfetch", "static_call", "arrow_param"],
-                      ["Self", "INT", "TRUE", "self", "int", "parent", "null", "void"], ["unq"], 1, 1, 1, "matrix C: special names")
+    behs = behaviours(check, ["new", "param_type", "return_type", "prop_type", "constfetch", "static_call", "arrow_param", "call", "call_nested"],
+                      ["Self", "INT", "TRUE", "self", "int", "parent", "null", "void", "string", "object"], ["unq"], 1, 1, 1, "matrix C: special names")
     run_matrix(check, wp, behs, "C")
     check.cov["matrix_C_files"] = len(behs)
     # matrix D (sections): two namespace sections, imports must not leak; declarations
